@@ -119,7 +119,21 @@ func HarnessC13LocalFSConfinement() {
 		}
 	}
 	sort.Strings(names)
-	if len(names) != 2 || names[0] != "base" || names[1] != "s" {
+	// the base directory itself may have been removed or renamed away by the
+	// operation (RemoveAll("") is inside the base); nothing else may appear and
+	// the sentinel must still be there
+	for _, nm := range names {
+		if nm != "base" && nm != "s" {
+			unchanged = false
+		}
+	}
+	hasS := false
+	for _, nm := range names {
+		if nm == "s" {
+			hasS = true
+		}
+	}
+	if !hasS {
 		unchanged = false
 	}
 	// every symbolic link created inside the base points inside the base
